@@ -65,7 +65,7 @@ Qed.
 
 Lemma wf_step sh w l s w' : WF w -> wire_stmt sh w l s = Ok w' -> WF w'.
 Proof.
-  intros F Hw. destruct s as [d ins| |h l' p|a b]; cbn [wire_stmt] in Hw.
+  intros F Hw. destruct s as [d ins| |h l' p|a b|pa la|pa la rc]; cbn [wire_stmt] in Hw.
   - unfold wire_node, wire_node_gen in Hw.
     destruct (resolve_inputs (w_env w) (w_phs w) ins) as [rins0|] eqn:R; [|discriminate].
     cbv zeta in Hw. set (rins := eff_inputs d rins0) in *.
@@ -119,6 +119,8 @@ Proof.
       intros x y Hin. apply in_app_iff in Hin. destruct Hin as [Hin|[Hin|[]]].
       * eapply wf_deps; eauto.
       * injection Hin as <- <-. split; eapply wf_env; eauto.
+  - destruct (alookup la (w_env w)); [|discriminate]. injection Hw as <-. exact F.
+  - destruct (alookup la (w_env w)); [|discriminate]. injection Hw as <-. exact F.
 Qed.
 
 Lemma wf_wire_from sh prog : forall order w w', WF w -> wire_from sh prog order w = Ok w' -> WF w'.
@@ -209,19 +211,144 @@ Proof.
 Qed.
 
 (* the compile theorems without the well-formedness hypothesis *)
+(* ---- the service rank contract only adds dependencies between existing instances *)
+Definition svc_ok (n : nat) (s : svc) : Prop :=
+  (forall p i, In (p, i) (s_anchors s) -> i < n) /\ (forall p i rc, In (p, i, rc) (s_clients s) -> i < n).
+
+Lemma alookup_in {B} k (l : list (nat * B)) v : alookup k l = Some v -> In (k, v) l.
+Proof.
+  induction l as [|[k' v'] r IH]; simpl; [discriminate|]. destruct (k' =? k) eqn:E.
+  - apply Nat.eqb_eq in E. subst. intros H. injection H as ->. left; reflexivity.
+  - intros H. right. apply IH; exact H.
+Qed.
+
+Lemma collect_svc_ok prog env n : (forall l i, alookup l env = Some i -> i < n) ->
+  forall order s s', svc_ok n s -> collect_svc prog order env s = Ok s' -> svc_ok n s'.
+Proof.
+  intros He. induction order as [|l r IH]; simpl; intros s s' Hs H.
+  - injection H as <-. exact Hs.
+  - destruct (nth_error prog l) as [[d ins| |h l' q|a b|p l'|p l' rc]|]; try (eapply IH; eauto; fail).
+    + destruct (alookup l' env) as [i|] eqn:El; [|discriminate].
+      destruct (alookup p (s_anchors s)) as [j|].
+      * destruct (i =? j); [eapply IH; eauto | discriminate].
+      * eapply IH; [|exact H]. destruct Hs as [Ha Hc]. split; simpl; auto.
+        intros p0 i0 Hin. apply in_app_iff in Hin. destruct Hin as [Hin|[Hin|[]]]; [eapply Ha; eauto|].
+        injection Hin as <- <-. eapply He; eauto.
+    + destruct (alookup l' env) as [i|] eqn:El; [|discriminate].
+      eapply IH; [|exact H]. destruct Hs as [Ha Hc]. split; simpl; auto.
+      intros p0 i0 rc0 Hin. apply in_app_iff in Hin. destruct Hin as [Hin|[Hin|[]]]; [eapply Hc; eauto|].
+      injection Hin as <- <- <-. eapply He; eauto.
+Qed.
+
+Lemma apply_svc_bound n anchors clients :
+  (forall p i, In (p, i) anchors -> i < n) -> (forall p i rc, In (p, i, rc) clients -> i < n) ->
+  forall deps, (forall a b, In (a, b) deps -> a < n /\ b < n) ->
+  forall a b, In (a, b) (apply_svc anchors clients deps) -> a < n /\ b < n.
+Proof.
+  intros Ha. induction clients as [|[[p c] rc] r IH]; simpl; intros Hc deps Hd a b Hin; [eapply Hd; eauto|].
+  assert (Hc' : forall p0 i rc0, In (p0, i, rc0) r -> i < n) by (intros; eapply Hc; right; eauto).
+  assert (Hcn : c < n) by (eapply Hc; left; reflexivity).
+  destruct (alookup p anchors) as [an|] eqn:E; [|eapply IH; eauto].
+  destruct (an =? c); [eapply IH; eauto|].
+  assert (Han : an < n) by (apply alookup_in in E; eapply Ha; eauto).
+  eapply (IH Hc' (add_dep deps (if rc then (c, an) else (an, c)))); [|exact Hin].
+  intros x y Hxy. unfold add_dep in Hxy. destruct (existsb _ deps); [eapply Hd; eauto|].
+  apply in_app_iff in Hxy. destruct Hxy as [Hxy|[Hxy|[]]]; [eapply Hd; eauto|].
+  destruct rc; injection Hxy as <- <-; auto.
+Qed.
+
+Lemma wf_finalize prog order w s : WF w -> collect_svc prog order (w_env w) svc0 = Ok s -> WF (finalize w s).
+Proof.
+  intros F H.
+  assert (Hs : svc_ok (length (w_insts w)) s).
+  { eapply (collect_svc_ok prog (w_env w) _ (wf_env _ F) order svc0 s); [|exact H].
+    split; simpl; intros; tauto. }
+  destruct Hs as [Ha Hc].
+  constructor; cbn [finalize w_insts w_tab w_env w_phs w_binds w_deps];
+    [exact (wf_env _ F) | exact (wf_tab _ F) | exact (wf_ins _ F) | exact (wf_binds _ F) | ].
+  apply (apply_svc_bound _ _ _ Ha Hc). exact (wf_deps _ F).
+Qed.
+
 Lemma compile_ranked' prog order w g o es :
   compile prog order = Built w g o es -> kahn g = KOk o /\ is_ranking g o.
 Proof.
   intros H. apply (compile_ranked prog order w g o es H).
   unfold compile in H. destruct (wire_prog true prog order) as [w'|c] eqn:Ew; [|discriminate].
-  unfold finish in H. destruct (rgraph_of w') as [g'|] eqn:Eg; [|discriminate].
-  destruct (kahn g'); try discriminate. destruct (emit_from w' 0 (w_insts w')); [|discriminate].
-  injection H as <- <- _ _. apply (rgraph_of_wf w' g'); auto. apply (wf_wire_prog true prog order w' Ew).
+  destruct (collect_svc prog order (w_env w') svc0) as [sv|c] eqn:Es; [|discriminate].
+  unfold finish in H. destruct (rgraph_of (finalize w' sv)) as [g'|] eqn:Eg; [|discriminate].
+  destruct (kahn g'); try discriminate. destruct (emit_from (finalize w' sv) 0 (w_insts (finalize w' sv))); [|discriminate].
+  injection H as <- <- _ _. apply (rgraph_of_wf (finalize w' sv) g'); auto.
+  eapply wf_finalize; eauto. apply (wf_wire_prog true prog order w' Ew).
 Qed.
 
-Lemma compile_rejects_cycle' prog order w g :
-  wire_prog true prog order = Ok w -> rgraph_of w = Some g ->
+Lemma compile_rejects_cycle' prog order w sv g :
+  wire_prog true prog order = Ok w -> collect_svc prog order (w_env w) svc0 = Ok sv ->
+  rgraph_of (finalize w sv) = Some g ->
   (compile prog order = Rejected E_CYCLE <-> cyclic g /\ ~ has_push_dep g).
 Proof.
-  intros Hw Hg. apply (compile_rejects_cycle prog order w Hw g Hg). apply (rgraph_of_wf w g); auto. apply (wf_wire_prog true prog order w Hw).
+  intros Hw Hs Hg. apply (compile_rejects_cycle prog order w sv Hw Hs g Hg). apply (rgraph_of_wf (finalize w sv) g); auto.
+  eapply wf_finalize; eauto. apply (wf_wire_prog true prog order w Hw).
+Qed.
+
+(* ---- the service rank contract reaches the rank graph: every client is ordered against its anchor *)
+Lemma add_dep_mono deps pr x : In x deps -> In x (add_dep deps pr).
+Proof. unfold add_dep. destruct (existsb _ deps); auto. intros H. apply in_app_iff. left; exact H. Qed.
+
+Lemma add_dep_has deps pr : In pr (add_dep deps pr).
+Proof.
+  unfold add_dep. destruct (existsb (pair_eqb pr) deps) eqn:E.
+  - apply existsb_exists in E. destruct E as ([x y] & Hin & He). unfold pair_eqb in He. simpl in He.
+    apply andb_true_iff in He. destruct He as [H1 H2]. apply Nat.eqb_eq in H1, H2. destruct pr as [u v]. simpl in *. subst. exact Hin.
+  - apply in_app_iff. right. left. reflexivity.
+Qed.
+
+Lemma apply_svc_mono anchors clients : forall deps x, In x deps -> In x (apply_svc anchors clients deps).
+Proof.
+  induction clients as [|[[p c] rc] r IH]; simpl; intros deps x H; auto.
+  destruct (alookup p anchors) as [a|]; auto. destruct (a =? c); auto. apply IH. apply add_dep_mono. exact H.
+Qed.
+
+Lemma apply_svc_has anchors (clients : list (nat * nat * bool)) : forall deps p c (rc : bool) a,
+  In (p, c, rc) clients -> alookup p anchors = Some a -> a <> c ->
+  In (if rc then (c, a) else (a, c)) (apply_svc anchors clients deps).
+Proof.
+  induction clients as [|[[p0 c0] rc0] r IH]; simpl; intros deps p c rc a Hin Ha Hne; [destruct Hin|].
+  destruct Hin as [Hin|Hin].
+  - injection Hin as -> -> ->. rewrite Ha. destruct (a =? c) eqn:E; [apply Nat.eqb_eq in E; congruence|].
+    apply apply_svc_mono. apply add_dep_has.
+  - destruct (alookup p0 anchors) as [a0|]; [|eapply IH; eauto]. destruct (a0 =? c0); eapply IH; eauto.
+Qed.
+
+Lemma rank_edges_from_deps w : forall insts c es, rank_edges_from w c insts = Some es ->
+  forall j a b, j < length insts -> In (a, b) (w_deps w) -> a = c + j -> In (b, a) es.
+Proof.
+  induction insts as [|it r IH]; simpl; intros c es H j a b Hj Hin Ha; [lia|].
+  destruct (input_edges (w_binds w) c (i_ins it)) as [x|]; [|discriminate].
+  destruct (rank_edges_from w (S c) r) as [y|] eqn:Er; [|discriminate].
+  injection H as <-. rewrite !in_app_iff. destruct j as [|j].
+  - right; left. unfold dep_edges. apply in_map_iff. exists (a, b). split; [simpl; f_equal; lia|].
+    apply filter_In. split; auto. simpl. apply Nat.eqb_eq. lia.
+  - right; right. eapply (IH (S c) y Er j); eauto; lia.
+Qed.
+
+(* rank edges are (producer, consumer): a receiving client comes after its anchor, a sending client before *)
+Lemma service_edges_ranked prog order w sv g :
+  wire_prog true prog order = Ok w -> collect_svc prog order (w_env w) svc0 = Ok sv ->
+  rgraph_of (finalize w sv) = Some g ->
+  forall p c rc a, In (p, c, rc) (s_clients sv) -> alookup p (s_anchors sv) = Some a -> a <> c ->
+  In (if rc then (a, c) else (c, a)) (rg_edges g).
+Proof.
+  intros Hw Hs Hg p c rc a Hin Ha Hne.
+  pose proof (wf_wire_prog true prog order w Hw) as F.
+  assert (Hok : svc_ok (length (w_insts w)) sv).
+  { eapply (collect_svc_ok prog (w_env w) _ (wf_env _ F) order svc0 sv); [|exact Hs]. split; simpl; intros; tauto. }
+  destruct Hok as [Hoa Hoc].
+  pose proof (apply_svc_has (s_anchors sv) (s_clients sv) (w_deps w) p c rc a Hin Ha Hne) as Hd.
+  unfold rgraph_of in Hg. destruct (rank_edges_from (finalize w sv) 0 (w_insts (finalize w sv))) as [es|] eqn:E; [|discriminate].
+  injection Hg as <-. simpl.
+  assert (Hc : c < length (w_insts w)) by (eapply Hoc; eauto).
+  assert (Han : a < length (w_insts w)) by (apply alookup_in in Ha; eapply Hoa; eauto).
+  destruct rc.
+  - apply (rank_edges_from_deps (finalize w sv) _ 0 es E c c a); auto.
+  - apply (rank_edges_from_deps (finalize w sv) _ 0 es E a a c); auto.
 Qed.
